@@ -481,7 +481,7 @@ for i = 1, 3 do t[i] = i * 2 s = s .. i end
 local function mk(k) local n = k return function() n = n + 1 return n end end
 local c = mk(seed)
 local mt = setmetatable({}, {__index = function(_, k) return k .. "!" end})
-emit(s .. c() .. c() .. mt.x .. #t .. ("ab"):rep(2):upper())
+emit(s .. c() .. c() .. mt.x .. #t .. ("ab"):rep(2):upper() .. -(1 + 2))
 `
 
 var c13StepCtrl sync.Map // *lua.Global -> *sched.Controller
@@ -489,14 +489,34 @@ var c13HookOnce sync.Once
 
 func c13ProtoDump(p *lua.FunctionProto) string { return lua.VerifProtoDump(p) }
 
+// c13RandomSrc: a seeded pseudo-random sequence belongs to the state that seeded it
+const c13RandomSrc = `math.randomseed(seed + 40)
+local a = math.random(1000)
+local b = math.random(1000)
+emit(a .. "," .. b .. "," .. math.random(1000))
+`
+
 func c13Interference(r *harness.Run, bound int, states, transitions, execs *int64) {
-	chunk, err := parse.Parse(strings.NewReader(c13ComputeSrc), "shared")
+	c13InterferenceOn(r, "", c13ComputeSrc, false, states, transitions, execs)
+	c13InterferenceOn(r, "random/", c13RandomSrc, true, states, transitions, execs)
+}
+
+func c13InterferenceOn(r *harness.Run, label, computeSrc string, runnersOnly bool, states, transitions, execs *int64) {
+	chunk, err := parse.Parse(strings.NewReader(computeSrc), "shared")
 	if err != nil {
 		harness.Fatal("c13: %v", err)
 	}
+	astBefore := parse.Dump(chunk)
 	proto, err := lua.Compile(chunk, "shared")
 	if err != nil {
 		harness.Fatal("c13: %v", err)
+	}
+	// compiling reads the syntax tree only: the same chunk can be compiled again (by another goroutine too)
+	if astAfter := parse.Dump(chunk); astAfter != astBefore {
+		r.Violation("interference/"+label+"compile-modified-the-syntax-tree", "lua.Compile wrote into the chunk it was given", map[string]interface{}{"before": astBefore, "after": astAfter})
+	}
+	if again, err := lua.Compile(chunk, "shared"); err != nil || c13ProtoDump(again) != c13ProtoDump(proto) {
+		r.Violation("interference/"+label+"second-compile-differs", "compiling the same chunk a second time gives another prototype", map[string]interface{}{"error": fmt.Sprint(err)})
 	}
 	before := c13ProtoDump(proto)
 	// the step hook parks registered states at every instruction
@@ -532,13 +552,16 @@ func c13Interference(r *harness.Run, bound int, states, transitions, execs *int6
 			return L.DoString(`local x = 0 for i = 1, 5 do x = x + i end return x`)
 		}},
 		{"runner+compile", func() error {
-			ch, err := parse.Parse(strings.NewReader(c13ComputeSrc), "shared")
+			ch, err := parse.Parse(strings.NewReader(computeSrc), "shared")
 			if err != nil {
 				return err
 			}
 			_, err = lua.Compile(ch, "shared")
 			return err
 		}},
+	}
+	if runnersOnly {
+		variants = variants[:1]
 	}
 	// each variant gets a third of the part's time budget
 	ibudget := 4 * time.Minute
@@ -599,7 +622,7 @@ func c13Interference(r *harness.Run, bound int, states, transitions, execs *int6
 			atomic.AddInt64(transitions, int64(len(ex.Points)))
 			r.EvalN(1)
 			if len(ex.Errors) > 0 {
-				r.Violation("interference/"+v.name, strings.Join(ex.Errors, "; ")+fmt.Sprintf("\nschedule %v", choices), map[string]interface{}{"variant": v.name, "schedule": choices})
+				r.Violation("interference/"+label+v.name, strings.Join(ex.Errors, "; ")+fmt.Sprintf("\nschedule %v", choices), map[string]interface{}{"variant": v.name, "schedule": choices})
 				return false
 			}
 			if r.Expired() || time.Since(istart) > ibudget {
@@ -609,13 +632,13 @@ func c13Interference(r *harness.Run, bound int, states, transitions, execs *int6
 			return true
 		})
 		if cut != 0 {
-			r.NotExhaustive(fmt.Sprintf("time budget reached in interference/%s after %d schedules (bound %d; bound %d is complete in the quick tier)", v.name, e.Executions, e.Bound, 2))
+			r.NotExhaustive(fmt.Sprintf("time budget reached in interference/%s after %d schedules (bound %d; bound %d is complete in the quick tier)", label+v.name, e.Executions, e.Bound, 2))
 		}
-		r.Eval("interference/"+v.name, true, func() interface{} {
-			return map[string]interface{}{"scenario": "interference/" + v.name, "schedules": e.Executions, "max_decision_points": e.MaxPoints, "bound": e.Bound}
+		r.Eval("interference/"+label+v.name, true, func() interface{} {
+			return map[string]interface{}{"scenario": "interference/" + label + v.name, "schedules": e.Executions, "max_decision_points": e.MaxPoints, "bound": e.Bound}
 		})
 		if e.Capped {
-			r.NotExhaustive("execution cap reached in interference/" + v.name)
+			r.NotExhaustive("execution cap reached in interference/" + label + v.name)
 		}
 		r.Count("interference_schedules", int64(e.Executions))
 	}
